@@ -319,6 +319,20 @@ def is_xml_top(top):
 def describe(soup, limit=600):
     try:
         s = soup.decode()
-    except Exception:  # noqa: BLE001
-        s = repr(soup)
+    except Exception:  # noqa: BLE001 - odd attribute values cannot be serialised by bs4
+        try:
+            s = _own_repr(soup)
+        except Exception:  # noqa: BLE001
+            s = '<unprintable %s>' % type(soup).__name__
     return s if len(s) <= limit else s[:limit] + '...'
+
+
+def _own_repr(o):
+    if isinstance(o, bs4.Tag):
+        inner = ''.join(_own_repr(c) for c in o.contents)
+        if isinstance(o, BeautifulSoup):
+            return inner
+        attrs = ''.join(' %s=%r' % (str(k), v) for k, v in o.attrs.items())
+        return '<%s%s>%s</%s>' % (o.name, attrs, inner, o.name)
+    return {'comment': '<!--%s-->', 'cdata': '<![CDATA[%s]]>', 'pi': '<?%s?>', 'doctype': '<!DOCTYPE %s>',
+            'decl': '<!%s>'}.get(node_kind(o), '%s') % str(o)
